@@ -115,12 +115,17 @@ def run(ctx):
     # sessions: every run on re-used objects returns its own faithful record
     traces = P.sessions(ctx, [], ctx.pick(40, 800), kinds=("obs", "set", "cset", "add"))
     P.validate(ctx, traces, "sessions")
+    from harness import hooks
+    hooks.check(ctx)
     ctx.assumptions += ["bucket arrays are level + fixed ramp; the result is read back through its y/x/time labels",
                         "a bucket empty at the end of a step yields an unconstrained slice (the code stores NaN)"]
 
 
 def replay(ctx, payload):
     case = payload["case"]
+    if case.get("kind") == "hooktrace":
+        from harness import hooks
+        return hooks.replay(ctx, payload)
     from harness import runner
     meta = case.get("meta", {})
     tr = runner.record_exposure(cfg=case["cfg"], construction=meta.get("construction", "python"),
